@@ -5,7 +5,7 @@ group() {
   case $1 in
     C01|C02|C06|C07|C08) echo "C01,C02,C06,C07,C08,C09";;
     C03|C04|C05|C14) echo "C03,C04,C05,C14,C09";;
-    C09) echo "C09,C01,C08,C05,C12,C10,C17,C18";;
+    C09) echo "C09,C01,C08,C05,C12,C10,C17,C18,C20";;
     C10|C13) echo "C10,C13,C09,C11";;
     C11|C12) echo "C11,C12,C09,C05,C13";;
     C15|C16|C17) echo "C15,C16,C17,C09";;
